@@ -127,6 +127,11 @@ def gen_case(rng, index, tier):
                                  'Etc/GMT+12', 'Europe/Rome',
                                  'EST5EDT,M3.2.0,M11.1.0', 'Australia/Lord_Howe'])
         case['env'] = dict(case['env'], TZ=case['tz'])
+    if not case.get('put_clock') and rng.random() < 0.4:
+        # the "now" of trash-empty exported by a wrapper script: it is no
+        # business of trash-put, whose DeletionDate is the time of trashing
+        case['env'] = dict(case['env'], TRASH_DATE=rng.choice(
+            ['2001-01-01T00:00:00', '2999-12-31T23:59:59', '1970-01-01T00:00:00']))
     return case
 
 
